@@ -54,7 +54,7 @@ NSHARDS = 64
 ASSUMPTIONS = [
     "a probe model with closed-form output stands in for a real pipeline",
     "a 4-value range on a multi-readout target means: all readouts",
-    "weight files are indexed in the target's frame (used only with identical result/target ranges)",
+    "weight files are aligned with the target files: they are sliced with the target fit range in the single-readout and in the time-domain path alike (also checked with shifted result/target ranges)",
     "ranges are contiguous with 0 <= start < stop (negative / reversed / stepped ranges are not enumerated)",
 ]
 
@@ -201,8 +201,8 @@ def enumerate_cases(tier, seed):
                     for rk in ("full", "sub", "shifted", "time-sub"):
                         if rk == "time-sub" and dims == 2:
                             continue
-                        if rk == "shifted" and weights == "file":
-                            continue
+                        # shifted ranges x weight files: the weight files are aligned with the *target* files (both the
+                        # single-readout and the time-domain path slice them with the target range) - see ASSUMPTIONS
                         cases.append({"fam": "fit", "func": func, "ntargets": ntargets, "weights": weights, "dims": dims,
                                       "range": rk, "rtype": ("pixel", "signal")[(ntargets + dims + len(rk)) % 2]})
     # archipelago runs (multi-readout: 6-value result range + 4-value target range; one 4-value/4-value case)
@@ -240,7 +240,7 @@ def expected_size(tier, seed):
     over = [(a, b) for a, b in subranges(ROWS + 2) if b > ROWS or thorough]
     rsize = sum(1 if a == 0 else 2 for a, b in over)
     time = sum((1 + nsub(3) + 2) * (1 + nsub(nf) + 1) for nf in ((3, 2, 4) if thorough else (3,)))
-    fit = len(FUNCS) * 3 * ((3 + 4) + (3 + 4) + (2 + 3))
+    fit = len(FUNCS) * 3 * ((3 + 4) + (3 + 4) + (3 + 4))
     combos = 3 * 2 * 2 * 2 * 2
     runs = (combos * 2 if thorough else combos // 2 + combos // 4) + 1 + 2
     return rows + cols + tsize + rsize + time + fit + runs
